@@ -154,6 +154,14 @@ func checkCase(c Case) (Outcome, error) {
 		// "The migration plan is generated for deferred execution" => rejected; in-place plans (and dump mode, whose
 		// PlanMode value includes the in-place bit) may alter the attributes of the very schema they run in.
 		mustReject = !migrate.PlanMode(c.Mode).Is(migrate.PlanModeInPlace)
+	case "modify-other-schema":
+		// the attributes of ANOTHER schema are altered next to table changes of this one: two schemas in one plan
+		other := schema.New("other_" + Marker)
+		mustReject = tableChanges(changes) > 0
+		changes = append(changes, &schema.ModifySchema{S: other, Changes: []schema.Change{&schema.AddAttr{A: &schema.Comment{Text: "x"}}}})
+		if !migrate.PlanMode(c.Mode).Is(migrate.PlanModeInPlace) {
+			mustReject = true // deferred plans may not alter any schema
+		}
 	case "two-schemas":
 		other := schema.New("other_" + Marker)
 		other.AddTables(schema.NewTable("elsewhere").AddColumns(schema.NewIntColumn("id", "bigint")))
